@@ -310,6 +310,9 @@ func checkSites(c *core.Ctx, rule string, fns []*ssa.Function) {
 		p.NonNeg = writerCounterNonNeg
 		p.ResultFacts = helperResultFacts(c)
 		sites := enumerateSites(p, fn)
+		// an unexported helper whose integer parameter receives a constant at every one of its (static) call sites: the
+		// parameter lies between the smallest and the largest of those constants
+		paramFacts := constantParamFacts(c, fn, p)
 		c.Count("functions_scanned", 1)
 		c.Count("panic_capable_sites", len(sites))
 		ord := map[string]int{}
@@ -324,7 +327,7 @@ func checkSites(c *core.Ctx, rule string, fns []*ssa.Function) {
 			var failed []string
 			var whys []string
 			for _, g := range s.goals {
-				ok, why := p.Prove(s.instr.Block(), g.l, nil)
+				ok, why := p.Prove(s.instr.Block(), g.l, paramFacts)
 				if !ok {
 					failed = append(failed, fmt.Sprintf("%s (needs %s >= 0)", g.what, g.l))
 				} else {
@@ -336,7 +339,7 @@ func checkSites(c *core.Ctx, rule string, fns []*ssa.Function) {
 				// re-stated over the actual arguments and proved at each call site (caller-side precondition)
 				all := true
 				for _, g := range s.goals {
-					if ok, _ := p.Prove(s.instr.Block(), g.l, nil); ok {
+					if ok, _ := p.Prove(s.instr.Block(), g.l, paramFacts); ok {
 						continue
 					}
 					if ok, why := provedAtCallers(c, fn, p, g.l, 0); ok {
@@ -522,4 +525,48 @@ func peekRootOf(fn *ssa.Function) *ssa.Function {
 		return nil
 	}
 	return root
+}
+
+// constantParamFacts: lo <= p <= hi for every integer parameter p of the unexported function fn that is given a constant
+// at each of its call sites (all of them static calls inside the module).
+func constantParamFacts(c *core.Ctx, fn *ssa.Function, p *prover.F) []prover.Fact {
+	if fn.Object() == nil || fn.Object().Exported() || fn.Parent() != nil {
+		return nil
+	}
+	node := c.Prog.CallGraph().Nodes[fn]
+	if node == nil || len(node.In) == 0 {
+		return nil
+	}
+	var out []prover.Fact
+	for i, prm := range fn.Params {
+		if !isIntType(prm.Type()) {
+			continue
+		}
+		lo, hi, ok := int64(0), int64(0), true
+		for n, e := range node.In {
+			call, isCall := e.Site.(*ssa.Call)
+			if !isCall || call.Call.StaticCallee() != fn || i >= len(call.Call.Args) {
+				ok = false
+				break
+			}
+			k, isK := constInt(call.Call.Args[i])
+			if !isK {
+				ok = false
+				break
+			}
+			if n == 0 || k < lo {
+				lo = k
+			}
+			if n == 0 || k > hi {
+				hi = k
+			}
+		}
+		if !ok {
+			continue
+		}
+		pl := p.LinOf(prm)
+		out = append(out, prover.Fact{L: pl.Add(prover.Const(lo), -1), Why: fmt.Sprintf("every call of %s passes a constant >= %d for %s", fn.Name(), lo, prm.Name())},
+			prover.Fact{L: prover.Const(hi).Add(pl, -1), Why: fmt.Sprintf("every call of %s passes a constant <= %d for %s", fn.Name(), hi, prm.Name())})
+	}
+	return out
 }
